@@ -74,7 +74,9 @@ def histAll (t : Ty) (xs : List Nat) : Table := histFrom t xs (zeroTable t)
 /-- one `(lo..hi).for_each(|i| { skip |= h[i] == n; temp = h[i]; h[i] = prev; prev += temp })` loop -/
 def scan (n : Nat) : List Nat → Array Nat → Nat → Bool → Array Nat × Nat × Bool
   | [], h, prev, skip => (h, prev, skip)
-  | i :: is, h, prev, skip => scan n is (st h i prev) (prev + gt h i) (skip || gt h i == n)
+  | i :: is, h, prev, skip =>
+    let temp := gt h i
+    scan n is (st h i prev) (prev + temp) (skip || temp == n)
 
 /-- `histogram_table[k].iter().skip(128).sum()` -/
 def sumFrom128 (h : Array Nat) : Nat := ((List.range' 128 128).map (gt h)).sum
